@@ -355,6 +355,51 @@ def probe(tier, seed):
                         fails.append(F("C19.frozen_mutable", cls=cname, call=name, args=repr(args), raised=type(exc).__name__ if exc else None, changed=changed))
                         if changed:
                             G = dn.freeze(copy.deepcopy(G0))
+            # a frozen graph also refuses add_node / add_nodes_from for a node it ALREADY has, with attributes (the networkx idiom
+            # for editing node data): it raises and changes nothing
+            G = dn.freeze(copy.deepcopy(G0))
+            if nodes:
+                ex0 = nodes[0]
+                for label, call in (("add_node(existing, attr)", lambda: G.add_node(ex0, colour="red")),
+                                    ("add_nodes_from([existing], attr)", lambda: G.add_nodes_from([ex0], colour="red")),
+                                    ("add_nodes_from([(existing, data)])", lambda: G.add_nodes_from([(ex0, {"colour": "red"})]))):
+                    before = (internal(G), copy.deepcopy(G._node))
+                    exc = None
+                    try:
+                        call()
+                    except Exception as ex:  # noqa
+                        exc = ex
+                    n_calls += 1
+                    changed = (internal(G), G._node) != before
+                    if exc is None or changed:
+                        fails.append(F("C19.frozen_mutable", cls=cname, call=label, raised=type(exc).__name__ if exc else None, changed=changed))
+                        G = dn.freeze(copy.deepcopy(G0))
+            # the blocked untimed edge views keep raising NetworkXNotImplemented ("always") after freeze as before it
+            G = dn.freeze(copy.deepcopy(G0))
+            for vname in ("edges_iter", "in_edges", "out_edges", "in_edges_iter", "out_edges_iter"):
+                if hasattr(G, vname):
+                    try:
+                        r = getattr(G, vname)()
+                        if hasattr(r, "__next__"):
+                            list(r)
+                        got = "no exception"
+                    except nx.NetworkXNotImplemented:
+                        got = None
+                    except Exception as ex:  # noqa
+                        got = type(ex).__name__
+                    n_calls += 1
+                    if got is not None:
+                        fails.append(F("C19.blocked_view_after_freeze", cls=cname, call=vname, got=got))
+            for fname, call in (("dn.get_edge_attributes", lambda: dn.get_edge_attributes(G, "t")), ("dn.set_edge_attributes", lambda: dn.set_edge_attributes(G, 1, "w"))):
+                try:
+                    call(); got = "no exception"
+                except nx.NetworkXNotImplemented:
+                    got = None
+                except Exception as ex:  # noqa
+                    got = type(ex).__name__
+                n_calls += 1
+                if got is not None:
+                    fails.append(F("C19.blocked_view_after_freeze", cls=cname, call=fname, got=got))
             # graphs derived from a frozen graph are graphs in their own right: freezing them must freeze them
             Gf = dn.freeze(copy.deepcopy(G0))
             derivs = [("to_directed", lambda g: g.to_directed()) if not G0.is_directed() else ("to_undirected", lambda g: g.to_undirected()),
